@@ -66,6 +66,9 @@ func (x *g) genGadgetService() {
 		HTTP: &spec.HTTP{Routes: []spec.Route{{Verb: "GET", Path: "/grid"}}}}
 	cells := &spec.Method{Name: "cells", NoSec: nosec, Payload: arr(arr(ref())), Result: arr(mp(ref())),
 		HTTP: &spec.HTTP{Routes: []spec.Route{{Verb: "POST", Path: "/cells"}}}}
+	// (the same service also sends a PLAIN collection of the type: the constructors of the two bodies must not share a name)
+	plain := &spec.Method{Name: "plain", NoSec: nosec, Payload: arr(ref()), Result: arr(ref()),
+		HTTP: &spec.HTTP{Routes: []spec.Route{{Verb: "POST", Path: "/plain"}}}}
 	// 4. bytes announced as text
 	blob := &spec.Method{Name: "blob", NoSec: nosec, Result: &spec.Attr{Type: &spec.Type{Kind: spec.Bytes}},
 		HTTP: &spec.HTTP{Routes: []spec.Route{{Verb: "GET", Path: "/blob"}}, Responses: []*spec.HTTPResponse{{Status: 200, ContentType: "text/plain"}}}}
@@ -124,7 +127,7 @@ func (x *g) genGadgetService() {
 	// a change that breaks the whole-body methods at compile time must not hide the others: one variant per design
 	methods := []*spec.Method{jar, blob, sizes, sheet, dflt}
 	if gr.Chance(1, 2) {
-		methods = []*spec.Method{jar, grid, cells, blob, sizes, dflt}
+		methods = []*spec.Method{jar, grid, cells, plain, blob, sizes, dflt}
 	}
 	x.s.Services = append(x.s.Services, &spec.Service{Name: "gadgets", BasePath: "/gadgets", Methods: methods})
 	x.s.AddFeature("gadget-service", "response-cookies-several", "tagged-response-explicit-body", "result-collection-of-collections-of-usertype",
@@ -299,7 +302,19 @@ func (x *g) genPathOrderGadget() {
 		HTTP: &spec.HTTP{Routes: []spec.Route{{Verb: "GET", Path: "/{ids}/{label}/{ratios}"}},
 			Path:               []spec.Loc{{Attr: "ids"}, {Attr: "label"}, {Attr: "ratios"}},
 			ExplicitPathParams: []string{"label"}}}
-	x.s.Services = append(x.s.Services, &spec.Service{Name: "pathorder", BasePath: "/pathorder", Methods: []*spec.Method{m}})
+	// two more methods of the same service send a plain collection and a collection of collections of ONE user type:
+	// the constructors of the two request bodies must not share a name
+	it := &spec.UserType{Name: x.typeName("POItem"), Kind: "type", Def: &spec.Type{Kind: spec.Object,
+		Attrs: []*spec.Attr{{Name: "name", Type: &spec.Type{Kind: spec.String}}, {Name: "qty", Type: &spec.Type{Kind: spec.Int}}}, Required: []string{"name"}}}
+	x.s.Types = append(x.s.Types, it)
+	ref := func() *spec.Attr { return &spec.Attr{Type: &spec.Type{Kind: spec.Ref, Ref: it.Name}} }
+	arr := func(e *spec.Attr) *spec.Attr { return &spec.Attr{Type: &spec.Type{Kind: spec.Array, Elem: e}} }
+	plain := &spec.Method{Name: "plain", NoSec: m.NoSec, Payload: arr(ref()),
+		HTTP: &spec.HTTP{Routes: []spec.Route{{Verb: "PATCH", Path: "/plain"}}}}
+	nested := &spec.Method{Name: "nested", NoSec: m.NoSec, Payload: arr(arr(ref())),
+		HTTP: &spec.HTTP{Routes: []spec.Route{{Verb: "PUT", Path: "/nested"}}}}
+	x.s.Services = append(x.s.Services, &spec.Service{Name: "pathorder", BasePath: "/pathorder", Methods: []*spec.Method{m, plain, nested}})
+	x.s.AddFeature("payload-collection-and-collection-of-collections-of-one-type")
 	x.s.AddFeature("path-param", "path-array", "path-params-declared-in-another-order")
 }
 
